@@ -22,6 +22,10 @@
 //!   * `for x in <list> { … break; … }`, one level, `<list>` through the name map: translated to a
 //!     structural recursion over the list carrying the `let mut` variables; what follows the
 //!     loop becomes `<fn>.after`, reached from `[]` and from `break`
+//!   * the built-in `Option` / `Result`: patterns `Some(p)`, `None`, `Ok(p)`, `Err(p)` (nested, with tuples, `_`
+//!     and binders) in `match`; constructors `Some(e)`, `None`, `Ok(e)`, `Err(e)`; `Result<T, E>` ↦ `Except E T`
+//!   * `let x = …;` that shadows an immutable `let x` (not before a loop); `#[cfg(unix)]` on a `let`
+//!   * an `async fn` only when the spec's signature starts with `async ` (every `.await` through the name map)
 //!   * logging macros `debug! trace! info! warn! error!` are skipped
 //!   * method calls / field accesses / casts only through the per-function NAME MAP below
 //!     (whole expression, compared after removing white space) or METHOD MAP
@@ -343,6 +347,157 @@ const SPECS: &[Spec] = &[
                its time stamp) are parameters, both made before any change; `Self::now()` is the parameter `now`; the stored \
                entry is (name, value) under `timestamp` – name and value are fixed inside `store_pending`.",
     },
+    Spec {
+        id: "C13",
+        file: "src/daemon/http/auth/roles.rs",
+        ty: "Role",
+        method: "is_allowed",
+        lean: "Role.is_allowed",
+        sig: "&self,permission:Permission,resource:Option<&MyHandle>->bool",
+        binders: "{H P S : Type} (has : S → P → Bool) (entry : H → Option S) (self_any self_none : S) (permission : P) (resource : Option H)",
+        args: "has entry self_any self_none permission resource",
+        ret: "Bool",
+        num: Num::Nat,
+        names: &[
+            ("resource", "resource"),
+            ("permission", "permission"),
+            ("self.resources.get(resource)", "(entry resource)"),
+            ("permissions", "permissions"),
+        ],
+        methods: &[
+            (("permissions", "has"), "has permissions"),
+            (("self.any", "has"), "has self_any"),
+            (("self.none", "has"), "has self_none"),
+        ],
+        state_ty: &[],
+        elem_ty: "",
+        enums: &[],
+        structs: &[],
+        types: &[],
+        opaque_lets: &[],
+        effects: &[],
+        wrapper: None,
+        note: "permission sets `S`, permissions `P` and handles `H` are abstract; `PermissionSet::has` is the parameter \
+               `has`; the hash map `self.resources` enters through its look-up function `entry` (`HashMap::get`); the \
+               fields `self.any` / `self.none` are the parameters `self_any` / `self_none`.  The binder `resource` of \
+               `Some(resource)` shadows the parameter of the same name in Rust and in Lean alike.",
+    },
+    Spec {
+        id: "C20",
+        file: "src/daemon/http/auth/authorizer.rs",
+        ty: "Authorizer",
+        method: "authenticate_request",
+        lean: "Authorizer.authenticate_request",
+        sig: "async &self,request:&HyperRequest->(AuthInfo,Option<Token>)",
+        binders: "{ρ ε π : Type} (legacy_provider : Option π) (legacy_authenticate : π → Except ε (Option ρ)) \
+                  (primary unix_socket : Except ε (Option ρ)) (anonymous : ρ) (error : ε → ρ)",
+        args: "legacy_provider legacy_authenticate primary unix_socket anonymous error",
+        ret: "ρ",
+        num: Num::Nat,
+        names: &[
+            ("&self.legacy_provider", "legacy_provider"),
+            ("provider.authenticate(request)", "(legacy_authenticate provider)"),
+            ("self.primary_provider.authenticate(request).await", "primary"),
+            ("self.unix_socket_provider.authenticate(request)", "unix_socket"),
+            ("(AuthInfo::anonymous(),None)", "anonymous"),
+            ("(AuthInfo::error(err),None)", "(error err)"),
+        ],
+        methods: &[],
+        state_ty: &[],
+        elem_ty: "",
+        enums: &[],
+        structs: &[],
+        types: &[],
+        opaque_lets: &[],
+        effects: &[],
+        wrapper: None,
+        note: "the three providers are abstract: `legacy_provider` is the optional legacy (admin token) provider and \
+               `legacy_authenticate` its `authenticate`; `primary` / `unix_socket` are the RESULTS of the primary \
+               provider's and the Unix-socket provider's `authenticate(request)` (each consulted at most once, and only \
+               on the path on which the value is used; the session cache effect of the primary provider is outside \
+               the translation and compared by the http stream); `ρ` is the returned pair `(AuthInfo, Option<Token>)`, \
+               `ε` the provider error; `Result<T, E>` ↦ `Except E T`.  The `#[cfg(unix)]` statement is part of the \
+               translated build.",
+    },
+    Spec {
+        id: "C16",
+        file: "src/api/roa.rs",
+        ty: "RoaPayload",
+        method: "effective_max_length",
+        lean: "RoaPayload.effective_max_length",
+        sig: "&self->u8",
+        binders: "(max_length : Option Nat) (addr_len : Nat)",
+        args: "max_length addr_len",
+        ret: "Nat",
+        num: Num::Nat,
+        names: &[("self.max_length", "max_length"), ("self.prefix.addr_len()", "addr_len")],
+        methods: &[],
+        state_ty: &[],
+        elem_ty: "",
+        enums: &[],
+        structs: &[],
+        types: &[],
+        opaque_lets: &[],
+        effects: &[],
+        wrapper: None,
+        note: "`u8` ↦ `Nat`; `self.max_length` and the prefix length `self.prefix.addr_len()` are parameters.",
+    },
+    Spec {
+        id: "C16",
+        file: "src/api/roa.rs",
+        ty: "RoaPayload",
+        method: "max_length_valid",
+        lean: "RoaPayload.max_length_valid",
+        sig: "&self->bool",
+        binders: "(self_max_length : Option Nat) (prefix_kind : TypedPrefix) (addr_len : Nat)",
+        args: "self_max_length prefix_kind addr_len",
+        ret: "Bool",
+        num: Num::Nat,
+        names: &[("self.max_length", "self_max_length"), ("self.prefix", "prefix_kind"), ("self.prefix.addr_len()", "addr_len")],
+        methods: &[],
+        state_ty: &[],
+        elem_ty: "",
+        enums: &[("TypedPrefix", "src/api/roa.rs", "")],
+        structs: &[],
+        types: &[],
+        opaque_lets: &[],
+        effects: &[],
+        wrapper: None,
+        note: "`u8` ↦ `Nat`; of `self.prefix` only the address family (the variant of `TypedPrefix`) and the length \
+               `addr_len()` are consulted.",
+    },
+    Spec {
+        id: "C16",
+        file: "src/api/roa.rs",
+        ty: "RoaPayload",
+        method: "nr_of_specific_prefixes",
+        lean: "RoaPayload.nr_of_specific_prefixes",
+        sig: "&self->u128",
+        binders: "(shl_sat : Nat → Nat) (addr_len effective_max_length : Nat)",
+        args: "shl_sat addr_len effective_max_length",
+        ret: "Nat",
+        num: Num::Nat,
+        names: &[
+            ("self.prefix.addr_len()", "addr_len"),
+            ("self.effective_max_length()", "effective_max_length"),
+            (
+                "1u128.checked_shl(u32::from(max_len.saturating_sub(pfx_len))).unwrap_or(u128::MAX)",
+                "(shl_sat (max_len - pfx_len))",
+            ),
+        ],
+        methods: &[],
+        state_ty: &[],
+        elem_ty: "",
+        enums: &[],
+        structs: &[],
+        types: &[],
+        opaque_lets: &[],
+        effects: &[],
+        wrapper: None,
+        note: "`1u128.checked_shl(n).unwrap_or(u128::MAX)` is the parameter `shl_sat n` (the theorem instantiates it with \
+               the checked shift of `Input/Checked.lean`: `2^n` for `n < 128`, else `2^128 - 1`); `saturating_sub` on `u8` \
+               is `Nat` subtraction; the whole shift expression is compared verbatim.",
+    },
 ];
 
 type R = Result<String, String>;
@@ -445,6 +600,7 @@ impl<'a> Tr<'a> {
                     return Err(format!("path with generic arguments `{c}`"));
                 }
                 match segs.as_slice() {
+                    [x] if x == "None" && self.local("None").is_none() => Ok("none".into()),
                     [x] => {
                         if self.opaque.contains(x) {
                             return Err(format!("payload binder `{x}` used outside the name map"));
@@ -529,6 +685,9 @@ impl<'a> Tr<'a> {
                     }
                 }
                 match (f.as_str(), args.as_slice()) {
+                    ("Some", [a]) => Ok(format!("(some {})", self.atom(a, ind)?)),
+                    ("Ok", [a]) => Ok(format!("(Except.ok {})", self.atom(a, ind)?)),
+                    ("Err", [a]) => Ok(format!("(Except.error {})", self.atom(a, ind)?)),
                     ("cmp::min" | "std::cmp::min", [a, b]) => Ok(format!("(min {} {})", self.atom(a, ind)?, self.atom(b, ind)?)),
                     ("cmp::max" | "std::cmp::max", [a, b]) => Ok(format!("(max {} {})", self.atom(a, ind)?, self.atom(b, ind)?)),
                     _ => Err(format!("call `{c}` (not in the name map)")),
@@ -624,6 +783,10 @@ impl<'a> Tr<'a> {
         };
         match p {
             P::Wild(_) => Ok("_".into()),
+            P::Ident(i) if i.ident == "None" && i.subpat.is_none() && i.by_ref.is_none() => Ok("none".into()),
+            P::TupleStruct(t) if t.qself.is_none() && t.elems.len() == 1 && ["Some", "Ok", "Err"].contains(&compact(&t.path).as_str()) => {
+                self.builtin_pat(p)
+            }
             P::Paren(q) => Ok(format!("({})", self.pat(&q.pat)?)),
             P::Reference(r) => self.pat(&r.pat),
             P::Path(q) if q.qself.is_none() => variant(self, &q.path),
@@ -664,6 +827,51 @@ impl<'a> Tr<'a> {
                 _ => Err(format!("literal pattern `{c}`")),
             },
             _ => Err(format!("pattern `{c}`")),
+        }
+    }
+
+    /// Patterns over the built-in `Option` / `Result` (`Some(p)`, `None`, `Ok(p)`, `Err(p)`, nested, tuples,
+    /// `_`, identifiers): `Option` ↦ `Option`, `Result<T, E>` ↦ `Except E T`.  Identifiers become immutable
+    /// locals of the arm; like in Rust they may shadow an immutable name in scope (Lean's `match` binders
+    /// shadow the same way), never a mutable local.
+    fn builtin_pat(&mut self, p: &syn::Pat) -> R {
+        use syn::Pat as P;
+        match p {
+            P::Wild(_) => Ok("_".into()),
+            P::Reference(r) => self.builtin_pat(&r.pat),
+            P::Paren(q) => self.builtin_pat(&q.pat),
+            P::Ident(i) if i.ident == "None" && i.subpat.is_none() && i.by_ref.is_none() => Ok("none".into()),
+            P::Ident(i) if i.by_ref.is_none() && i.mutability.is_none() && i.subpat.is_none() => {
+                let n = i.ident.to_string();
+                if self.local(&n) == Some(true) || self.opaque.contains(&n) || n == "tail" || self.in_loop || self.seen_loop {
+                    return Err(format!("binder `{n}` shadows a mutable / opaque name or occurs in a loop function"));
+                }
+                if let Some(v) = self.name(&n) {
+                    if v != n {
+                        return Err(format!("binder `{n}` shadows a name-map entry that is not the identity"));
+                    }
+                }
+                self.locals.push((n.clone(), false));
+                Ok(lean_ident(&n))
+            }
+            P::TupleStruct(t) if t.qself.is_none() && t.elems.len() == 1 => {
+                let ctor = match compact(&t.path).as_str() {
+                    "Some" => "some",
+                    "Ok" => "Except.ok",
+                    "Err" => "Except.error",
+                    o => return Err(format!("pattern constructor `{o}` inside a built-in pattern")),
+                };
+                let inner = self.builtin_pat(&t.elems[0])?;
+                Ok(format!("({ctor} {inner})"))
+            }
+            P::Tuple(t) => {
+                let mut parts = Vec::new();
+                for el in &t.elems {
+                    parts.push(self.builtin_pat(el)?);
+                }
+                Ok(format!("({})", parts.join(", ")))
+            }
+            _ => Err(format!("pattern `{}` inside a built-in pattern", compact(p))),
         }
     }
 
@@ -736,7 +944,18 @@ impl<'a> Tr<'a> {
                 if init.diverge.is_some() {
                     return Err(format!("let-else for `{name}`"));
                 }
-                if self.name(&name).is_some() || self.local(&name).is_some() || self.opaque.contains(&name) {
+                for a in &l.attrs {
+                    // `#[cfg(unix)]` statements are part of the translated build (the daemon runs on unix only)
+                    if compact(a) != "#[cfg(unix)]" {
+                        return Err(format!("attribute `{}` on `let {name}`", compact(a)));
+                    }
+                }
+                let reshadow = !mutable && self.local(&name) == Some(false) && !self.seen_loop && !self.in_loop && self.name(&name).is_none();
+                if reshadow {
+                    // `let x = f(x);` over an immutable `x`: the same shadowing in Lean; not before a loop
+                    // (the `let`s before a loop are re-emitted inside it)
+                    self.prefix_err.get_or_insert(format!("`let {name}` shadows an earlier `let {name}` before a loop"));
+                } else if self.name(&name).is_some() || self.local(&name).is_some() || self.opaque.contains(&name) {
                     return Err(format!("`let {name}` shadows a name already in scope"));
                 }
                 if let Some((_, init_c)) = self.spec.opaque_lets.iter().find(|(n, _)| *n == name) {
@@ -1164,12 +1383,13 @@ fn gen_fn(repo: &Path, spec: &Spec) -> R {
         syn::ReturnType::Default => "()".to_string(),
         syn::ReturnType::Type(_, t) => compact(t),
     };
-    let sig = format!("{}->{}", inputs.join(","), output);
+    let sig = format!("{}{}->{}", if f.sig.asyncness.is_some() { "async " } else { "" }, inputs.join(","), output);
     if sig != spec.sig {
         return Err(format!("signature changed: `{sig}` (expected `{}`)", spec.sig));
     }
-    if f.sig.asyncness.is_some() || f.sig.unsafety.is_some() || !f.sig.generics.params.is_empty() {
-        return Err("async / unsafe / generic function".into());
+    // an `async fn` is accepted only when the spec's signature says `async ` (every `.await` must then be in the name map)
+    if f.sig.unsafety.is_some() || !f.sig.generics.params.is_empty() {
+        return Err("unsafe / generic function".into());
     }
     let mut tr = Tr {
         spec,
